@@ -189,6 +189,8 @@ def run(repo: Repo, rep: Report, tier: str) -> None:
         inner_ids = {id(y) for x in inner_loops for y in ast.walk(x)}
         prop_merge = {n.id for n in cfg3.nodes if n.kind == "stmt" and n.ast is not None and id(n.ast) in body_ids and (
             (isinstance(n.ast, ast.Assign) and isinstance(n.ast.targets[0], ast.Subscript) and id(n.ast) in inner_ids)
+            or (isinstance(n.ast, ast.Expr) and id(n.ast) in inner_ids and any(
+                isinstance(c.func, ast.Attribute) and c.func.attr in ("setdefault", "update", "__setitem__") for c in calls_in(n.ast)))  # `merged.setdefault(k, v)` = first wins
             or (reads(n.ast, "properties") and any(isinstance(c.func, ast.Attribute) and c.func.attr in ("update", "setdefault") for c in calls_in(n.ast))))}
         prop_dicts = {n.ast.targets[0].value.id for n in cfg3.nodes if n.id in prop_merge and isinstance(n.ast, ast.Assign) and isinstance(n.ast.targets[0].value, ast.Name)}
         for label, nodes in (("required", req_upd), ("properties", prop_merge)):
